@@ -50,6 +50,27 @@ def fn(sysm, snap, model):
     o = Out()
     root, db = snap
     if not model:
+        # the clauses that are not restricted to non-empty tries: nothing starts with any prefix, nothing is reachable (also on a
+        # trie that was emptied again, whose database still holds the old nodes)
+        for p in [b""] + sysm.probes:
+            o.evals += 1
+            try:
+                if check_if_branch_exist(db, root, p) is not False:
+                    o.viol("C13", "branch_exist_wrong", "check_if_branch_exist is true on a trie that stores no key", call="check_if_branch_exist", key=p,
+                           got=True, want=False, model=model)
+                elif tuple(get_witness_for_key_prefix(db, root, p)) != ():
+                    o.viol("C13", "witness_foreign_node", "a witness of the empty trie is not empty", call="witness", key=p, model=model)
+                else:
+                    o.nontrivial += 1
+            except Exception as e:  # noqa
+                o.viol("C13", "branch_exist_raised", f"check_if_branch_exist / witness raised {type(e).__name__} on an empty trie", call="check_if_branch_exist",
+                       key=p, model=model)
+        o.evals += 1
+        try:
+            if tuple(get_trie_nodes(db, root)) != ():
+                o.viol("C13", "trie_nodes_wrong", "get_trie_nodes of the blank root is not empty", call="get_trie_nodes", model=model)
+        except Exception as e:  # noqa
+            o.viol("C13", "trie_nodes_raised", f"get_trie_nodes raised {type(e).__name__} on the blank root", call="get_trie_nodes", model=model)
         return o
     canon_nodes = bt.nodes(model)
     encs = set(canon_nodes.values())
@@ -222,7 +243,7 @@ def factory(kw):
 
 def run(tier, seed):
     rep = Report("C13", tier, seed, "fault_enumeration")
-    rep.rule = ("states = every non-empty trie of the C12 closure BFS; per state and probe key: get_branch refusal rule, if_branch_valid confirms the "
+    rep.rule = ("states = every trie of the C12 closure BFS (the empty ones only for the clauses not restricted to non-empty tries); per state and probe key: get_branch refusal rule, if_branch_valid confirms the "
                 "trie's answer; forgery enumeration: honest branch, every truncation, every node removed, every single-node alteration (children "
                 "swapped, child hash replaced by every other node hash, leaf value changed, key-path bit flipped / shortened / extended) substituted "
                 "and appended, branches of every other key, of every neighbour trie, and all nodes at once, each offered with every wrong answer; "
